@@ -320,3 +320,25 @@ def run(ctx):
 
     rule_r8(ctx)
     ctx.rules["C04-R8"]["decides"] = "(shared with C04, here C09-R9) " + ctx.rules["C04-R8"]["decides"]
+
+
+# ---------------------------------------------------------------------------- R10 shared with C07 (added after seeded change C09/hostname-check-decided-once)
+_run_base09 = run
+
+
+def run(ctx):  # noqa: F811
+    _run_base09(ctx)
+    R10 = ctx.rule("C09-R10", "inside the tunnel the origin's certificate is checked against the destination's name whatever state the (possibly shared) SSLContext is in (shared with C07): the who-checks-the-hostname decision table of _ssl_wrap_socket_and_match_hostname has no cell in which nobody checks (C07-R3), and the name checked is the tunnel host (C07-R8)", "E5 decision table (shared with C07)")
+    from .c07 import _run_base07 as _c07
+
+    before = len(ctx.obs)
+    rules_before = dict(ctx.rules)
+    declined_before = list(ctx.declined)
+    _c07(ctx)
+    ctx.declined[:] = declined_before
+    keep_rules = ("C07-R3", "C07-R8")
+    ctx.obs[before:] = [o for o in ctx.obs[before:] if o.rule in keep_rules]
+    for r in list(ctx.rules):
+        if r.startswith("C07-") and r not in keep_rules and r not in rules_before:
+            ctx.rules.pop(r)
+    ctx.ob(R10, "urllib3.connection._ssl_wrap_socket_and_match_hostname", f"{len(ctx.obs) - before} shared obligations (C07-R3, C07-R8)", True)
